@@ -310,6 +310,20 @@ def run(ctx):
     r.rule("C04.10", "the tree-builder module cache keys on the keyword arguments' values (fullTree, ...)", floor=1)
     from .c12 import lossy_cache_keys
     lossy_cache_keys(ctx, "C04.10")
+    # ---- C04.11 plain attribute names reach minidom through setAttribute(), which also indexes every attribute under
+    # (None, part after the colon): `lang` and `xml:lang` on an HTML element collide there, ElementTree keeps both
+    r.rule("C04.11", "the DOM back-end stores two attributes of one element whose names differ only by a prefix (lang / xml:lang)", floor=1)
+    sa = dm_el.methods.get("setAttributes")
+    if sa is None:
+        raise AnalysisError("dom NodeBuilder.setAttributes vanished")
+    plain = [c for c in ast.walk(sa.node) if isinstance(c, ast.Call) and norm(c.func) == "self.element.setAttribute"]
+    guarded = any(isinstance(t, (ast.If, ast.IfExp)) and ("':'" in norm(t.test) or "':' in" in norm(t.test)) for t in ast.walk(sa.node))
+    r.idiom("C04.11", not plain, "dom-plain-attribute-names", sa.where, "dom setAttributes: storage of plain attribute names not recognised",
+            wrong=[(bool(plain) and not guarded,
+                    "the DOM back-end stores plain attribute names with Element.setAttribute(); minidom files every attribute under "
+                    "(None, local part) as well, so `<p lang=en xml:lang=fr>` keeps only xml:lang (and `<a xlink:href=x href=y>` only "
+                    "href) while the ElementTree back-end keeps both")],
+            detail={"setAttribute_calls": len(plain)})
     # ---- C04.3b: `childNodes` is a property in the etree back-end (getter returns the shadow list, setter clears both
     # lists): mutating the returned list in place changes the shadow list only
     n3b = 0
